@@ -152,6 +152,15 @@ def make_load(b, load):
     def external_torque(time, angular_position, angular_speed):
         t, p, w = si(time), si(angular_position), si(angular_speed)
         log.append((t, p, w))
+        if load.get('reentrant'):
+            # a load function that uses the public API on what it receives (without modifying it): copies in the units it likes
+            # to compute in, comparisons, a sensor on the loaded element
+            k_ = len(log)
+            time.to(('sec', 'ms', 'min')[k_ % 3])
+            angular_position.to(('rad', 'deg', 'rot')[k_ % 3])
+            angular_speed.to(('rad/s', 'rpm', 'deg/s')[(k_ + 1) % 3]) >= angular_speed
+            g().se.Tachometer(target=b.last).get_value(unit='rpm')
+            g().se.AbsoluteRotaryEncoder(target=b.last).get_value()
         if b.max_calls is not None and len(log) > b.max_calls:
             # online monitor at the load hook: a run that computes far more instants than its duration allows is stopped here
             # (otherwise a runaway time loop would only ever show up as a watchdog timeout, i.e. inconclusive)
